@@ -21,14 +21,14 @@ import common
 from common import fl, fl_list
 import p_c17
 
-GEN_PREFIXES = ["verif/interval.py", "verif/util.py"]
-EXTRA_TARGETS = ["Model/Diagrams.vo", "Gen/Gen_interval.vo", "Model/Render.vo"]
+GEN_PREFIXES = ["verif/interval.py", "verif/util.py", "verif/metric.py"]
+EXTRA_TARGETS = ["Model/Diagrams.vo", "Gen/Gen_interval.vo", "Gen/Gen_contingency.vo", "Model/Render.vo"]
 ASSUMPTIONS = ["the arrays delivered by verif.data.Data.get_scores are taken from the real object (their correctness is C01-C15)",
                "values are multiples of 1/4 (1/16 for PIT, 1/8 for probabilities) so sums are exact in binary floating point",
-               "not modelled: droc, performance, taylor, error, murphy, economicvalue, bsdecomp, igncontrib, fss, autocorr/autocov, "
-               "against, freq, marginal, invreliability, rank/impact views, maps, the quantile lines of scatter"]
+               "not modelled: droc, murphy, economicvalue, bsdecomp, igncontrib, fss, autocorr/autocov, "
+               "against, invreliability, meteo, rank/impact views, maps, the quantile lines of scatter"]
 NAN = float("nan")
-PRE = "From VF Require Import Base.Num Base.Vec Base.Event Gen.Gen_interval Model.Diagrams.\nNotation X := XF."
+PRE = "From VF Require Import Base.Num Base.Vec Base.Event Gen.Gen_interval Gen.Gen_contingency Model.Diagrams.\nNotation X := XF."
 QS = [0.1, 0.25, 0.5, 0.75, 0.9]
 PS = [1, 3, 5]
 
@@ -418,6 +418,80 @@ def _explore(out, tier, seed, facts, replay, tmp):
                         list(l.get_xdata()) + list(l.get_ydata()), rep)
                 if len(ls) != F:
                     out.violation("spreadskill:series", "-m spreadskill: %d lines for %d inputs" % (len(ls), F), rep)
+
+            # ---- freq: share of forecasts (per input) and of observations inside each interval ------------------------
+            f_edges = sorted(rng.sample([0, 1, 2, 3, 4, 5, 6, 7, 8], rng.randint(3, 6)))
+            args = ["-m", "freq", "-r", ",".join(str(e) for e in f_edges)]
+            fig, rep, _ = run(args)
+            if fig is not None:
+                ls = lines_of(fig.axes[0], names)
+                ivs = "(flat_map (fun o => match o with Some i => [i] | None => [] end) (get_intervals X WithinEq %s))" % fvec(f_edges)
+                if len(ls) != F:
+                    out.violation("freq:series", "-m freq: %d lines for %d inputs" % (len(ls), F), rep)
+                for k, l in enumerate(ls[:F]):
+                    o, fc = data.get_scores([OBS, FC], k, NO)
+                    add("freq", "verif %s, input %d" % (" ".join(args), k), "freq_line X %s %s" % (ivs, fvec(fc)), l.get_ydata(), rep)
+                obs_lines = [l for l in fig.axes[0].get_lines() if l.get_label() == "Observed"]
+                if len(obs_lines) == 1:
+                    o, fc = data.get_scores([OBS, FC], F - 1, NO)
+                    add("freq", "verif %s, observations" % " ".join(args), "freq_line X %s %s" % (ivs, fvec(o)), obs_lines[0].get_ydata(), rep)
+
+            # ---- marginal: mean probability of the event and its observed frequency ------------------------------------
+            args = ["-m", "marginal", "-r", ",".join(str(t_) for t_ in PS)]
+            fig, rep, _ = run(args)
+            if fig is not None:
+                ls = lines_of(fig.axes[0], names)
+                if len(ls) != F:
+                    out.violation("marginal:series", "-m marginal: %d lines for %d inputs" % (len(ls), F), rep)
+                for k, l in enumerate(ls[:F]):
+                    terms = []
+                    for t_ in PS:
+                        o, cdf = data.get_scores([OBS, verif.field.Threshold(t_)], k, NO)
+                        terms.append("fst (marginal_point X %s %s)" % (fvec((o > t_).astype(float)), fvec(1 - cdf)))
+                    add("marginal", "verif %s, input %d" % (" ".join(args), k), "[" + "; ".join(terms) + "]", l.get_ydata(), rep)
+
+            # ---- error decomposition and Taylor diagram (one point per slice) ---------------------------------------------
+            for diag in ("error", "taylor"):
+                axn2 = rng.choice([None, "leadtime", "location"]) if diag == "taylor" else None     # -m error does not take -x
+                args = ["-m", diag] + (["-x", axn2] if axn2 else [])
+                fig, rep, _ = run(args)
+                if fig is None:
+                    continue
+                ls = lines_of(fig.axes[0], names)
+                if len(ls) != F:
+                    out.violation("%s:series" % diag, "-m %s: %d point series for %d inputs" % (diag, len(ls), F), rep)
+                    continue
+                axis2 = verif.axis.get(axn2) if axn2 else NO
+                size = data.get_axis_size(axis2)
+                for k, l in enumerate(ls):
+                    sl = [data.get_scores([OBS, FC], k, axis2, i) for i in range(size)]
+                    if any(len(o_) < 2 or np.var(o_) == 0 or np.var(f_) == 0 for o_, f_ in sl):
+                        continue                     # undefined correlation / one case: not compared
+                    if diag == "error":
+                        expr = "(let r := map (fun z => error_point X (fst z) (snd z)) [%s] in (map fst r ++ map snd r)%%list)" % "; ".join(
+                            "(%s, %s)" % (fvec(o_), fvec(f_)) for o_, f_ in sl)
+                    else:
+                        expr = "(let r := map (fun z => taylor_point X %s (fst z) (snd z)) [%s] in (map fst r ++ map snd r)%%list)" % (
+                            "true" if size > 1 else "false", "; ".join("(%s, %s)" % (fvec(o_), fvec(f_)) for o_, f_ in sl))
+                    add(diag, "verif %s, input %d" % (" ".join(args), k), expr, list(l.get_xdata()) + list(l.get_ydata()), rep)
+
+            # ---- performance diagram: (success ratio, probability of detection) per slice --------------------------------
+            pt = rng.choice([2, 3, 4, 5])
+            axn3 = rng.choice([None, "leadtime", "location"])
+            args = ["-m", "performance", "-r", str(pt), "-simple"] + (["-x", axn3] if axn3 else [])
+            fig, rep, _ = run(args)
+            if fig is not None:
+                ls = lines_of(fig.axes[0], names)
+                if len(ls) != F:
+                    out.violation("performance:series", "-m performance: %d point series for %d inputs" % (len(ls), F), rep)
+                axis3 = verif.axis.get(axn3) if axn3 else NO
+                size = data.get_axis_size(axis3)
+                for k, l in enumerate(ls[:F]):
+                    sl = [data.get_scores([OBS, FC], k, axis3, i) for i in range(size)]
+                    expr = ("(let iv := match get_intervals X Above [%s] with Some i :: _ => i | _ => mk_interval X None None false false end in "
+                            "let r := map (fun z => performance_point X iv (fst z) (snd z)) [%s] in (map fst r ++ map snd r)%%list)" % (
+                                fl(float(pt)), "; ".join("(%s, %s)" % (fvec(o_), fvec(f_)) for o_, f_ in sl)))
+                    add("performance", "verif %s, input %d" % (" ".join(args), k), expr, list(l.get_xdata()) + list(l.get_ydata()), rep)
 
             # ---- time series: one forecast line per input and initialisation time ------------------------------------
             fig, rep, _ = run(["-m", "timeseries"])
